@@ -1335,9 +1335,21 @@ def _callers_index(pm):
     """method / function name -> set of qualified names of the functions that call something of that name"""
     idx = {}
     for mod, (rel, tree, src) in pm.modules.items():
+        # receivers that are file objects (`with open(…) as f:` / `f = open(…)`): f.write(…) is no call into the package
+        files = set()
+        for n in ast.walk(tree):
+            if isinstance(n, ast.withitem) and isinstance(n.context_expr, ast.Call) and norm(n.context_expr.func) in ("open", "io.open") \
+                    and isinstance(n.optional_vars, ast.Name):
+                files.add((id(_enclosing(n.context_expr)[1]), n.optional_vars.id))
+            if isinstance(n, ast.Assign) and isinstance(n.value, ast.Call) and norm(n.value.func) in ("open", "io.open", "StringIO", "io.StringIO") \
+                    and len(n.targets) == 1 and isinstance(n.targets[0], ast.Name):
+                files.add((id(_enclosing(n.value)[1]), n.targets[0].id))
         for c in ast.walk(tree):
             if isinstance(c, ast.Call):
                 nm = c.func.attr if isinstance(c.func, ast.Attribute) else c.func.id if isinstance(c.func, ast.Name) else None
+                if nm and isinstance(c.func, ast.Attribute) and isinstance(c.func.value, ast.Name) \
+                        and (id(_enclosing(c)[1]), c.func.value.id) in files:
+                    continue
                 if nm:
                     idx.setdefault(nm, set()).add(_enclosing(c)[0])
     # calls that the canonical form replaced by the callee's body still count as calls
